@@ -177,7 +177,8 @@ class Graph:
         Return a Graph with given Vars marked as exactly its arguments.
         A useful idiom is ``results(...).with_arguments(...)`` when you want to specify both results and arguments.
         """
-        return replace(self, _arguments=args)
+        # A build result cached for the previous arguments must not be shared with the new Graph
+        return replace(self, _arguments=args, _build_result=_build.Cached())
 
     def with_opset(self, *args: Tuple[str, int]) -> "Graph":
         """
